@@ -158,11 +158,12 @@ class DriverFailure(Exception):
 class Case:
     """one request.  `line` = op + args without prefix.  kinds: which of m (hand model), g (generated code),
     s (spec) answer it.  `spec` may override the spec request: callable(impl_answer) -> (line, expected)."""
-    __slots__ = ('line', 'kinds', 'nontrivial', 'tag', 'domain', 'spec', 'setup', 'note')
+    __slots__ = ('line', 'kinds', 'nontrivial', 'tag', 'domain', 'spec', 'setup', 'note', 'model')
 
-    def __init__(self, line, kinds='ms', nontrivial=False, tag='', domain=True, spec=None, setup=None, note=None):
+    def __init__(self, line, kinds='ms', nontrivial=False, tag='', domain=True, spec=None, setup=None, note=None, model=None):
         self.line = line; self.kinds = kinds; self.nontrivial = nontrivial; self.tag = tag
         self.domain = domain; self.spec = spec; self.setup = setup; self.note = note
+        self.model = model     # optional callable(impl_answer) -> (model request line, expected model answer)
 
 
 class Ctx:
